@@ -287,13 +287,30 @@ func (sc *Context) DocValueReaderForReader(r DocumentValueReadable, fields []str
 	dvReader := sc.dvReaders[r]
 	if dvReader == nil {
 		var err error
-		dvReader, err = r.DocumentValueReader(fields)
+		dvReader, err = r.DocumentValueReader(uniqueFields(fields))
 		if err != nil {
 			return nil, err
 		}
 		sc.dvReaders[r] = dvReader
 	}
 	return dvReader, nil
+}
+
+// uniqueFields drops repeated field names, a field named by the sort order
+// and by aggregations (or by several aggregations) must have its values
+// loaded only once per document
+func uniqueFields(fields []string) []string {
+	rv := make([]string, 0, len(fields))
+OUTER:
+	for _, field := range fields {
+		for _, seen := range rv {
+			if seen == field {
+				continue OUTER
+			}
+		}
+		rv = append(rv, field)
+	}
+	return rv
 }
 
 func (sc *Context) Size() int {
